@@ -497,3 +497,88 @@ pub fn generate(cfg: &GenCfg, limit: u64, visit: &mut dyn FnMut(Program) -> bool
     g.dfs(&s, visit);
     g.count
 }
+
+fn slot_roles(op: &Op) -> (Option<u32>, Vec<u32>, Option<u32>) {
+    // (creates, uses, finishes)
+    match op {
+        Op::Root { slot, .. } | Op::ChildLocal { slot, .. } | Op::Noop { slot } | Op::RootFromLocal { slot, .. } => (Some(*slot), vec![], None),
+        Op::Child { slot, parents, .. } => (Some(*slot), parents.clone(), None),
+        Op::RootFromSpan { slot, of, .. } => (Some(*slot), vec![*of], None),
+        Op::AddProps { slot, .. }
+        | Op::AddEvent { slot, .. }
+        | Op::Cancel { slot }
+        | Op::ObserveSpan { slot }
+        | Op::Elapsed { slot }
+        | Op::SetLocalParent { slot }
+        | Op::PushChildSpans { slot, .. } => (None, vec![*slot], None),
+        Op::Finish { slot } => (None, vec![], Some(*slot)),
+        _ => (None, vec![], None),
+    }
+}
+
+/// Turns a sequential program into concurrent two-thread variants: every subset of the operations
+/// that need no thread-local state (child creation with explicit parents, attachments by handle,
+/// cancel, finish) moves to a second thread. Hand-offs (signal/wait) are inserted only where the
+/// program needs them to stay well-formed: a span is used after it was created and finished after
+/// its last use. Everything else is left to the scheduler.
+pub fn concurrentize(seq: &Program, max_moved: usize) -> Vec<Program> {
+    let ops: Vec<Op> = seq.actors[0].ops.clone();
+    let movable: Vec<usize> = ops
+        .iter()
+        .enumerate()
+        .filter(|(_, o)| matches!(o, Op::Child { .. } | Op::AddProps { .. } | Op::AddEvent { .. } | Op::Cancel { .. } | Op::Finish { .. }))
+        .map(|(i, _)| i)
+        .collect();
+    let mut out = Vec::new();
+    let n = movable.len().min(12);
+    for mask in 1u32..(1u32 << n) {
+        if mask.count_ones() as usize > max_moved {
+            continue;
+        }
+        let on_b: Vec<bool> = (0..ops.len()).map(|i| movable.iter().position(|m| *m == i).map_or(false, |k| k < n && mask & (1 << k) != 0)).collect();
+        // cross-thread dependencies in program order
+        let mut lists: [Vec<Op>; 2] = [vec![Op::Warm], vec![Op::Warm]];
+        let mut flag = 400u32;
+        let mut signals_after: Vec<Vec<u32>> = vec![Vec::new(); ops.len()];
+        let mut waits_before: Vec<Vec<u32>> = vec![Vec::new(); ops.len()];
+        for j in 0..ops.len() {
+            let (_, uses_j, fin_j) = slot_roles(&ops[j]);
+            let mut deps: Vec<usize> = Vec::new();
+            for s in uses_j.iter().chain(fin_j.iter()) {
+                // creation of s
+                if let Some(i) = (0..j).rev().find(|&i| slot_roles(&ops[i]).0 == Some(*s)) {
+                    deps.push(i);
+                }
+            }
+            if let Some(s) = fin_j {
+                // every earlier use of s
+                for i in 0..j {
+                    if slot_roles(&ops[i]).1.contains(&s) {
+                        deps.push(i);
+                    }
+                }
+            }
+            deps.sort();
+            deps.dedup();
+            // only the latest dependency on the other thread is needed (program order does the rest)
+            if let Some(&i) = deps.iter().filter(|&&i| on_b[i] != on_b[j]).max() {
+                signals_after[i].push(flag);
+                waits_before[j].push(flag);
+                flag += 1;
+            }
+        }
+        for (i, op) in ops.iter().enumerate() {
+            let a = on_b[i] as usize;
+            for f in &waits_before[i] {
+                lists[a].push(Op::Wait(*f));
+            }
+            lists[a].push(op.clone());
+            for f in &signals_after[i] {
+                lists[a].push(Op::Signal(*f));
+            }
+        }
+        let [la, lb] = lists;
+        out.push(Program::new(format!("{}/conc{mask}", seq.name)).worker("A", la).worker("B", lb));
+    }
+    out
+}
